@@ -25,13 +25,13 @@ TECHNIQUE = ('Hypothesis rule-based state machine over histories of doctest runs
              'collection, whole-module runs, environment phase flips); oracle = history-independent expectation table '
              '(verdict, exception class, recorded stdout, report style) + invariants on module globals, default directive '
              'state and the shared config dict after every step')
-LEVEL_TEXT = ("A state machine builds a module with a global G, a function reading it and a pool of 6-14 doctests drawn from 16 "
+LEVEL_TEXT = ("A state machine builds a module with a global G, a function reading it and a pool of 6-14 doctests drawn from 18 "
               "templates (binds a name others read; reads a name only another doctest binds; checks that its own name is unset "
               "and then sets it; rebinds the module global; reads the module global directly and through module code; ends "
               "with SKIP / an unmet REQUIRES / REPORT_NDIFF / IGNORE_WANT / -ELLIPSIS switched on; a multi-line wrong want whose "
               "report style is visible; replaces sys.stdout; sets warning filters to 'error'; emits a warning; leaves unmatched "
               "output behind in one phase and would profit from it in the other; fails after binding a name it first tests "
-              "for) and runs histories of up to 30 (quick) / 50 (thorough) steps: run a pooled object (verbosity 0-3), run it "
+              "for; changes the warning filters and then fails; mutates an object created by the global_exec preamble) and runs histories of up to 30 (quick) / 50 (thorough) steps: run a pooled object (verbosity 0-3), run it "
               "again, run a freshly collected object, run the whole module through doctest_module with a shared non-empty "
               "default option dict, flip the phase, re-collect. After every run the verdict, the exception class, the recorded "
               "stdout and (for the wrong-want template) the diff style must be what the table says for (template, phase); "
@@ -52,8 +52,8 @@ ASSUMPTIONS = [
 
 TEMPLATES = ['define', 'read_other', 'unset_then_set', 'rebind_G', 'read_G', 'leave_skip', 'leave_requires', 'leave_ndiff',
              'leave_ignore_want', 'leave_noellipsis', 'wrong_want', 'replace_stdout', 'filter_error', 'warn', 'phase_unmatched',
-             'fails_late', 'needs_ellipsis']
-LEAVES_ON = {'leave_skip', 'leave_requires', 'leave_ndiff', 'leave_ignore_want', 'leave_noellipsis', 'filter_error', 'replace_stdout',
+             'fails_late', 'needs_ellipsis', 'filter_error_then_fail', 'global_exec_mutate']
+LEAVES_ON = {'filter_error_then_fail', 'global_exec_mutate', 'leave_skip', 'leave_requires', 'leave_ndiff', 'leave_ignore_want', 'leave_noellipsis', 'filter_error', 'replace_stdout',
              'define', 'rebind_G', 'phase_unmatched', 'fails_late'}
 PHASE_VAR = 'VP_PHASE'
 
@@ -95,6 +95,11 @@ def template_lines(t, k):
         return [">>> print('fresh' if 'Z' not in globals() else 'stale')", 'fresh', '>>> Z = 1', ">>> raise KeyError('late')"]
     if t == 'needs_ellipsis':
         return [">>> print('head middle tail')", 'head ... tail']
+    if t == 'filter_error_then_fail':
+        return ['>>> import warnings', ">>> warnings.simplefilter('error')", ">>> raise LookupError('after changing the filters')"]
+    if t == 'global_exec_mutate':
+        # SEEN is created by the global_exec preamble ("code executed before every test"): each doctest gets its own
+        return ['>>> SEEN.append({})'.format(k), '>>> print(SEEN)', '[{}]'.format(k)]
     raise KeyError(t)
 
 
@@ -134,6 +139,10 @@ def expected(t, k, phase):
         return 'failed', 'KeyError', 'fresh\n'
     if t == 'needs_ellipsis':
         return 'passed', None, 'head middle tail\n'
+    if t == 'filter_error_then_fail':
+        return 'failed', 'LookupError', ''
+    if t == 'global_exec_mutate':
+        return 'passed', None, '[{}]\n'.format(k)
     raise KeyError(t)
 
 
@@ -167,7 +176,7 @@ class World(object):
         # the option dict every doctest of a run shares: non-empty (like --options=+ELLIPSIS) or empty (no options)
         self.shared_state = {'ELLIPSIS': True} if self.with_options else {}
         self.shared_state0 = dict(self.shared_state)
-        self.shared_config = {'default_runtime_state': self.shared_state}
+        self.shared_config = {'default_runtime_state': self.shared_state, 'global_exec': 'SEEN = []'}
         self.stdout0 = sys.stdout
         self.filters0 = list(warnings.filters)
         self.history = []
@@ -199,7 +208,7 @@ class World(object):
         exp_outcome, exp_exc, exp_stdout = expected(t, i + 100, self.phase)
         raised = None
         summary = None
-        with sandbox.quiet():
+        with sandbox.quiet_io():      # (not quiet(): that would restore the warning filters and hide a leak)
             try:
                 summary = ex.run(on_error=on_error, verbose=verbose)
             except Exception as e:   # noqa
@@ -264,7 +273,7 @@ class World(object):
         from xdoctest import doctest_example
         config = doctest_example.DoctestConfig()
         config.update(self.shared_config)
-        with sandbox.quiet():
+        with sandbox.quiet_io():
             rs = xdoctest.doctest_module(self.path, command='all', argv=[], style='google', verbose=verbose, config=config)
         self.n_runs += len(self.templates)
         exp = [expected(t, i + 100, self.phase)[0] for i, t in enumerate(self.templates)]
